@@ -129,6 +129,9 @@ func quantDelta(states []*State) bool {
 	}
 	for _, s := range live {
 		for _, c := range s.pc[n:] {
+			if hoistable(c) {
+				continue
+			}
 			if strings.Contains(c, "(forall ") || strings.Contains(c, "(exists ") {
 				return true
 			}
